@@ -84,6 +84,14 @@ pub fn bincode_deserialize<T>(data: &[u8], tls: &mut Tls) -> (r: Result<T, binco
     ensures de_step(*old(tls), *final(tls))
 { unimplemented!() }
 
+// bincode::deserialize_from(reader): allocates what a length prefix announces BEFORE checking that the input holds that much
+// ("capacity overflow" panic / allocation abort on corrupt input) - unlike the slice entry point, which is total
+#[verifier::external_body]
+pub fn bincode_deserialize_from<T>(data: &[u8], tls: &mut Tls) -> (r: Result<T, bincode::Error>)
+    requires false, //@@clause:ipc.OpaqueIpcMessage.to/requires.decoder_bounds_allocations_by_the_input
+    ensures de_step(*old(tls), *final(tls))
+{ unimplemented!() }
+
 pub struct IpcSender<T> { pub os_sender: OsIpcSender, pub phantom: PhantomData<T> }
 pub struct OpaqueIpcMessage {
     pub data: Vec<u8>,
